@@ -269,7 +269,11 @@ def run_cases(ctx, cases, tag="corr"):
     ok_shapes = all(st["acc_shapes"] == [[d] for d in c["shape"]] for st in r["steps"])
     if not ok_shapes:
       continue
-    terms.append(term_for(c, r))
+    try:
+      terms.append(term_for(c, r))
+    except ValueError as e:      # NaN / Inf has no dyadic form: reported with the case as failing input
+      r["exc"] = "non-finite value in the implementation's output for finite input (%s)" % e
+      continue
     idx.append(i)
   vals = ctx.coq_eval(tag, HEADER, terms, per_shard=max(4, len(terms) // (3 * common.NPROC) + 1))
   for i, v in zip(idx, vals):
